@@ -155,7 +155,27 @@ fn gen_tables(tier: &str, rng: &mut Rng, slice: &'static str, allow_empty: bool)
     cases
 }
 fn gen_c05(tier: &str, rng: &mut Rng) -> Vec<Case> {
-    gen_tables(tier, rng, "regular", true)
+    let mut cases = gen_tables(tier, rng, "regular", true);
+    // a spanning cell over columns that hold nothing else, beside a column with much text: the
+    // spanned columns' estimates are positive but their share of the width rounds to nothing
+    let n = if tier == "thorough" { 20000 } else { 1500 };
+    for k in 0..n {
+        let span = rng.range(2, 6);
+        let tlen = rng.range(1, 2 * span);
+        let text: String = "abcdefghijklmnop".chars().take(tlen).collect();
+        let long = format!("s{} {}", k, "word ".repeat(rng.range(2, 12)).trim_end());
+        let empties: String = (0..span).map(|_| *rng.pick(&["<td></td>", "<td></td>", "<td> </td>"])).collect();
+        let rows = [format!("<tr><td colspan=\"{}\">{}</td><td>x</td></tr>", span, text), format!("<tr>{}<td>{}</td></tr>", empties, long)];
+        let html = if rng.chance(1, 2) { format!("<table>{}{}</table>", rows[0], rows[1]) } else { format!("<table>{}{}</table>", rows[1], rows[0]) };
+        let strs = if html.starts_with("<table><tr><td colspan") {
+            vec![format!("{}:{},1:x", span, text), format!("{},1:s{}", vec!["1:"; span].join(","), k)]
+        } else {
+            vec![format!("{},1:s{}", vec!["1:"; span].join(","), k), format!("{}:{},1:x", span, text)]
+        };
+        let id = cases.len();
+        cases.push(mk_case(id, 0, Cfg { deco: 1, ..Default::default() }, rng.range(7, 60), html.into_bytes(), Some(0), Meta::G { role: "table", strs, nums: vec![0] }, "span_over_empty"));
+    }
+    cases
 }
 /// Tiny tables: one- or two-letter cells (every letter unique), entirely empty columns, narrow
 /// widths - the window where the side-by-side / stacked decision and the shrink loop meet.
@@ -749,8 +769,8 @@ fn check_c07(cases: &[Case], results: &[Option<RunResult>]) -> Vec<Violation> {
             let pf = &cases[a].meta.strs()[0];
             let pr = &cases[a].meta.strs()[1];
             let expect: Vec<String> = inner.iter().enumerate().map(|(k, l)| format!("{}{}", if k == 0 { pf } else { pr }, l)).collect();
-            let norm = |v: &Vec<String>| v.iter().map(|l| l.trim_end().to_string()).collect::<Vec<_>>();
-            if norm(&expect) != norm(&outer) {
+            // (exact: a blank line of the content still carries the prefix column)
+            if expect != outer {
                 v.push(viol(a, "block is not its content rendered at the narrower width with a prefix on every line", format!("{} expected {:?} got {:?}", cases[a].slice, expect, outer), None));
             }
         } else if grp.len() == 1 {
